@@ -174,7 +174,7 @@ var specs = map[string]*propSpec{
 		rule:        "three kinds of case, each in a fresh server process through LoadPlugins: (static) a generated lease file of 1-40 lines - every MAC spelling (colon/hyphen/dot, 6/8/20 bytes, case) and address spelling (dotted, v4-mapped, compressed/expanded/upper-case IPv6), tabs/multiple blanks, comments, blank lines, duplicates, and in a third of the files one malformation (field count, MAC, address, wrong family) at a random position - accepted iff the reference parser accepts it, and then every listed MAC (and 3 unlisted) is asked for: listed -> last address listed (yiaddr + chain ends; exactly one IA_NA with the request's IAID), unlisted / no IA_NA -> reply identical to the reply without the plugin; (refresh) autorefresh with 1-10 good/bad updates of self-identifying versions, written in place (single equal-length pwrite) or installed by renaming a new file over the name, with or without a hard link that keeps the old file alive: each poll sequence must be old-or-new and monotone, a good version must be served for all MACs within 400 polls / 20 s (re-armed once), a bad one must leave the old version served; (dual) DHCPv4 and DHCPv6 instances in one process with their own files and independent rewrites. Non-trivial = static file with >= 2 entries or malformed, every refresh sequence, every dual case; distinct by content",
 		assumptions: assume("removing the file and creating it again (a window in which the name does not exist) is outside 'rewrites' and not driven", "whitespace-only lines, indented comments and CR line endings are not classified by the statement and are not generated", "'eventually' is restated as bounded progress: 400 polls over >= 20 s with one re-arm"),
 		runs: []runSpec{{engine: "file", parallel: 12, qBatches: 24, qCases: 12, tBatches: 96, tCases: 120, stall: 6 * time.Minute},
-			{engine: "fileepoch", parallel: 4, qBatches: 4, qCases: 3, tBatches: 16, tCases: 6, stall: 6 * time.Minute},
+			{engine: "fileepoch", parallel: 4, qBatches: 4, qCases: 3, tBatches: 8, tCases: 4, stall: 6 * time.Minute},
 			// a rewrite of the lease file that lands inside the plugin's start-up (placed by slowing one system call
 			// of the starting process down with strace): it is loaded all the same
 			{engine: "filestart", parallel: 8, qBatches: 8, qCases: 3, tBatches: 16, tCases: 12}},
@@ -241,7 +241,7 @@ var specs = map[string]*propSpec{
 			// leaves behind is nanoseconds wide; the race detector's instrumentation closes it): each epoch adds a
 			// client to the lease file while hundreds of its datagrams are in flight, then the client asks alone
 			// until it is served - a listed client stays unserved in no serial order of datagrams and reload
-			{engine: "fileepoch", parallel: 4, qBatches: 8, qCases: 3, tBatches: 32, tCases: 6, stall: 6 * time.Minute},
+			{engine: "fileepoch", parallel: 4, qBatches: 8, qCases: 3, tBatches: 16, tCases: 4, stall: 6 * time.Minute},
 			// the environment variants of the real binary: among them a backlog of requests from two links
 			// queued while the process is stopped (what the read loop does with several datagrams at once)
 			wireVarRun(),
